@@ -20,6 +20,7 @@ type SolveResult struct {
 	Raw     string
 	All     map[string]string // per-solver status (thorough cross-check)
 	Relaxed bool              // Model comes from the relaxed query
+	Sliced  bool              // discharged on the cone-of-influence slice of the query
 }
 
 type solverSpec struct {
@@ -42,7 +43,12 @@ func (o *Obligation) Query(seed int) string { return o.query(seed, false) }
 // candidate counterexample when the full query comes back unknown (the model must then replay).
 func (o *Obligation) RelaxedQuery(seed int) string { return o.query(seed, true) }
 
-func (o *Obligation) query(seed int, relaxed bool) string {
+// SlicedQuery renders the query restricted to the cone of influence of the goal.
+func (o *Obligation) SlicedQuery(seed int) string { return o.queryOpt(seed, false, true) }
+
+func (o *Obligation) query(seed int, relaxed bool) string { return o.queryOpt(seed, relaxed, false) }
+
+func (o *Obligation) queryOpt(seed int, relaxed bool, sliced bool) string {
 	var b strings.Builder
 	b.WriteString("(set-option :produce-models true)\n")
 	if seed != 0 {
@@ -54,17 +60,70 @@ func (o *Obligation) query(seed int, relaxed bool) string {
 		b.WriteString(p)
 		b.WriteByte('\n')
 	}
+	var keep map[int]bool
+	var epi []string
+	for _, e := range o.Epilogue {
+		if (o.ExpectSat || relaxed) && strings.Contains(e, "(forall ") {
+			continue // reachability witnesses do not need the loop frames
+		}
+		epi = append(epi, e)
+	}
+	if sliced {
+		sc.mu.Lock()
+		goal := []string{o.Reach, o.Goal}
+		for _, p := range o.Probes {
+			goal = append(goal, p.Term)
+		}
+		// epilogue lines join the cone when they mention a symbol of it; iterate to a fixpoint
+		keep = sc.Slice(o.ScriptLen, goal, nil)
+		for changed := true; changed; {
+			changed = false
+			inCone := map[string]bool{}
+			for i := range keep {
+				if n := sc.lines[i].name; n != "" {
+					inCone[n] = true
+				}
+			}
+			var extra []string
+			var rest []string
+			for _, e := range epi {
+				hit := false
+				for _, s := range termSymbols(e) {
+					if inCone[s] {
+						hit = true
+						break
+					}
+				}
+				if hit {
+					extra = append(extra, e)
+				} else {
+					rest = append(rest, e)
+				}
+			}
+			if len(extra) > 0 {
+				k2 := sc.Slice(o.ScriptLen, goal, append(extra, o.slicedEpi...))
+				if len(k2) > len(keep) {
+					changed = true
+				}
+				keep = k2
+				o.slicedEpi = append(o.slicedEpi, extra...)
+				epi = rest
+			}
+		}
+		sc.mu.Unlock()
+		epi = o.slicedEpi
+	}
 	for i, l := range sc.lines {
 		if l.kind == "assert" && i >= o.ScriptLen {
+			continue
+		}
+		if keep != nil && !keep[i] {
 			continue
 		}
 		b.WriteString(l.text)
 		b.WriteByte('\n')
 	}
-	for _, e := range o.Epilogue {
-		if (o.ExpectSat || relaxed) && strings.Contains(e, "(forall ") {
-			continue // reachability witnesses do not need the loop frames
-		}
+	for _, e := range epi {
 		b.WriteString(e)
 		b.WriteByte('\n')
 	}
@@ -170,6 +229,14 @@ func Solve(query string, timeoutS int, all bool, probes []Probe) SolveResult {
 		r := <-ch
 		got++
 		res.All[r.name] = r.status
+		if r.status == "unknown" && len(probes) > 0 && res.Model == nil && res.Status != "sat" && res.Status != "unsat" {
+			// cvc5 answers unknown on quantified goals but still prints the candidate model it stopped at
+			if m := parseValues(r.out, probes); len(m) > 0 {
+				res.Model = m
+				res.Relaxed = true
+				res.Raw = "candidate model printed by " + r.name + " with its answer `unknown`:\n" + r.out
+			}
+		}
 		if r.status == "error" {
 			errs = append(errs, r.name+": "+firstLines(r.out, 3))
 		}
